@@ -33,8 +33,10 @@ Definition answer_exec (log : list entry) (ltx : option nat) (q : request) : res
 Definition answer_run (log : list entry) (ltx : option nat) (q : request) : response :=
   if N.eqb (rq_ik q) 0 then answer_exec log ltx q
   else match find_by_ik log (rq_ik q) with
-       | Some e => if same_kind (e_kind e) (rq_kind q) then ROk (e_txid e)
-                   else if is_tx_kind (rq_kind q) then RErr EKindMismatch else ROk None
+       (* the stored entry is answered again only when it is the outcome of this request ([is_outcome_of]: same
+          kind; revert: same reverted transaction; metadata write: same target and content); otherwise the key was
+          reused with a different request: refused *)
+       | Some e => if is_outcome_of q e then ROk (e_txid e) else RErr EKeyReused
        | None => answer_exec log ltx q
        end.
 Definition answer (log : list entry) (ltx : option nat) (q : request) : response :=
@@ -236,7 +238,7 @@ Ltac head_step :=
   | |- match _ with _ => _ end =>
       match goal with |- ?G =>
         let c := atom G in
-        first [ rewrite e3_compatible_nil | rewrite e3_same_kind_match | use_eq c | destruct c eqn:?; try congruence ] end
+        first [ rewrite e3_compatible_nil | use_eq c | destruct c eqn:?; try congruence ] end
   end.
 Ltac inner_step :=
   d_cbn; rewrite ?Nat.eqb_refl, ?entry_persisted_app; facts;
@@ -408,7 +410,7 @@ Qed.
 
 Definition with_dry (q : request) (b : bool) : request :=
   {| rq_kind := rq_kind q; rq_ik := rq_ik q; rq_ref := rq_ref q; rq_dry := b; rq_postings := rq_postings q;
-     rq_unb := rq_unb q; rq_revert := rq_revert q; rq_target_tx := rq_target_tx q |}.
+     rq_unb := rq_unb q; rq_revert := rq_revert q; rq_target_tx := rq_target_tx q; rq_meta := rq_meta q |}.
 
 Lemma answer_with_dry : forall log ltx q b, answer log ltx (with_dry q b) = answer log ltx q.
 Proof. reflexivity. Qed.
